@@ -27,6 +27,7 @@ verus! {
 //@ include prelude/rc_asref.rs
 //@ include prelude/strmap.rs
 //@ include prelude/capstone_x86.rs
+//@ include prelude/capstone_x86_insn.rs
 //@ mode contracts-only C11
 //@ include units/C11/error_from.rs
 //@ mode contracts-only C15
@@ -62,6 +63,7 @@ use super::graph::{Vertex as GraphVertexTrait, Edge as GraphEdgeTrait};
 //@ mode full
 //@ include units/C01/bits.rs
 //@ include units/C01/il_glue.rs
+//@ include units/C01/il_glue2.rs
 proof fn vf_canary_il() ensures false {}
 } // mod il
 
@@ -71,11 +73,15 @@ use crate::*;
 use crate::il::*;
 use crate::il::Expression as Expr;
 use crate::strmap::*;
-use crate::capstone_x86::capstone;
+use crate::capstone_x86i::capstone;
 use crate::capstone_x86::capstone_sys::x86_reg;
+use crate::capstone_x86i::capstone_sys::{x86_insn, x86_op_type, cs_x86_op, x86_op_mem};
 use vstd::std_specs::iter::IteratorSpec;
 //@ include units/C01/regs.rs
 //@ include units/C01/flags.rs
+//@ include units/C01/cond.rs
+//@ include units/C01/addr.rs
+//@ include units/C01/stack.rs
 proof fn vf_canary_x86() ensures false {}
 } // mod x86
 } // mod translator
